@@ -1,0 +1,9 @@
+//go:build !verif
+// +build !verif
+
+package utility
+
+import "time"
+
+// no-op twin of the verification clock hook (see verif_time.go)
+func verifNow() (time.Time, bool) { return time.Time{}, false }
